@@ -119,6 +119,10 @@ def replay_case(case):
         frame = ref.frame(0x04, 0x02, bytes(pl))
         content = frame[2:-5] + bytes.fromhex(case["tail"])
         return [(a + "|sealed_with_library_checksum", b) for a, b in judge(b"\xb5\x62" + content + H.calc_checksum(content), 0)[2]]
+    if case["kind"] == "wrap":
+        n = case["decl"] + 65536 * case["k"]
+        content = bytes(case["cid"]) + case["decl"].to_bytes(2, "little") + bytes((i * 7 + 1) % 256 for i in range(n))
+        return [(a + "|payload_longer_by_multiple_of_65536", b[:200]) for a, b in judge(b"\xb5\x62" + content + ref.fletcher8(content), case["mode"])[2]]
     if case["kind"] == "extreme":
         n, k, d = case["n"], case["k"], case["d"]
         pl = bytearray((i * 7) % 256 for i in range(n))
@@ -232,6 +236,21 @@ def eval_block(block, acc):
                         acc.extra["fault_result_wellformed"] += 1
                     for key, detail in out:
                         acc.violation(key, {"kind": "fault", "x": x.hex(), "mode": 0, "fault": "sub2", "family": t}, detail)
+    elif kind == "wrap":
+        # insertion bursts of k x 65,536 bytes: the payload is longer than its length field by a multiple of 2^16
+        # and the checksum over class..payload is CORRECT - only the length clause can refuse it
+        for cid, decl in (((0x05, 0x01), 2), ((0x06, 0x00), 0), ((0x04, 0x02), 100), ((0x99, 0x01), 65535)):
+            for k in (1, 2):
+                n = decl + 65536 * k
+                content = bytes(cid) + decl.to_bytes(2, "little") + bytes((i * 7 + 1) % 256 for i in range(n))
+                x = b"\xb5\x62" + content + ref.fletcher8(content)
+                for mode in (0, 1):
+                    wf, ret, out = judge(x, mode)
+                    acc.evaluations += 1
+                    acc.transitions += 1
+                    acc.outcomes[("wrap", wf, ret.split(":")[0])] += 1
+                    for key, detail in out:
+                        acc.violation(key + "|payload_longer_by_multiple_of_65536", {"kind": "wrap", "cid": list(cid), "decl": decl, "k": k, "mode": mode}, detail[:200])
     elif kind == "extreme":
         # frames at the largest payload lengths: corruptions of the last bytes incl. ones that keep the first
         # checksum byte unchanged (+1 / -1 on neighbouring bytes)
@@ -287,6 +306,7 @@ def run_tier(tier, t0):
     blocks = [("entries", idx[i::64], q) for i in range(64)]
     blocks.append(("tokens", q))
     blocks.append(("extreme", q))
+    blocks.append(("wrap", q))
     for t in ("U0", "Uack") if q else ("U0", "Uack", "Ucfg"):
         blocks += [("double", t, i, q) for i in range(len(streams.TOKENS[t][2]) - 1)]
     blocks += [("zero", cls, q) for cls in range(256)]
@@ -302,7 +322,7 @@ def run_tier(tier, t0):
             f"{[hex(x) for x in SIGMA_P]}; VALNONE clause with {'all 510 single-byte' if q else 'single-byte and lattice / all 65,535 (tokens)'} checksum corruptions. "
             "distinct_nontrivial = distinct (fault kind, well-formed?, verdict) classes"
         ),
-        assumptions=["well-formedness = reference framing + independent Fletcher (mc/refmodel/core.py)"],
+        assumptions=["well-formedness = reference framing + independent Fletcher (mc/refmodel/core.py)", "extra families: maximum-length frames (65,531..65,535-byte payloads) with checksum-neutral corruptions and frames sealed with the library's own checksum helper; insertion bursts of 1 and 2 x 65,536 bytes with a correct checksum (payload longer than its length field by a multiple of 2^16); fault classes also under (msgmode, parsebitfield) = (3,0),(3,1),(1,0),(0,0)"],
         vacuity=[
             ("some faulted inputs were themselves well-formed and accepted", any(k[1] is True and k[2] == "returned" for k in acc.outcomes if len(k) == 3)),
             ("malformed inputs rejected with UBXParseError", any(k[1] is False and k[2] == "parse-error" for k in acc.outcomes if len(k) == 3)),
